@@ -16,13 +16,13 @@ def covered_files(rec):
     return sorted(r.get("ok", {}))
 
 
-def gen_tamper(rng, chain, recs):
-    """one tamper event: ('tree', boundary, ops, label) or ('link', step index, how)"""
+def gen_tamper(rng, chain, recs, force=None):
+    """one tamper event: ('tree', boundary, ops, label) or ('link', step index, how); [force]: that kind of tree tamper"""
     n = len(chain["steps"])
     r = rng.random()
-    if r < 0.25:
-        return ("link", rng.randrange(n), rng.choice(["edit", "remove", "swap_signer", "sig_nibble"]))
     boundaries = list(range(1, n)) + ([n] if chain.get("final_inspection") else [])
+    if r < 0.25 and not (force and boundaries):
+        return ("link", rng.randrange(n), rng.choice(["edit", "remove", "swap_signer", "sig_nibble"]))
     if not boundaries:
         return ("link", rng.randrange(n), rng.choice(["edit", "remove"]))
     b = rng.choice(boundaries)
@@ -35,6 +35,8 @@ def gen_tamper(rng, chain, recs):
         # linked directory inside it
         files = ["plugins_v1/hook.py", "plugins_v1/hook.py", "proj/main.py", "proj/conf/a.ini"]
     kind = rng.choice(["edit", "add", "delete", "rename", "rewrite_same", "uncovered", "delete_all", "line_endings"])
+    if force:
+        kind = force
     if kind in ("edit", "delete", "rename", "rewrite_same", "delete_all", "line_endings") and not files:
         kind = "add"
     if kind == "line_endings":
@@ -148,6 +150,8 @@ def run(ctx):
                               "files escape the chain" % "; ".join(drift[:3]), {"chain": chain, "drift": drift})
             continue
         family = ctx.rng.choice(["R", "B"])
+        if i % 7 == 2:
+            family = "R"       # (with the forced removal of everything covered, below: only REQUIRE can notice it)
         layout = ch.derive_layout(ctx.rng, chain, recs, family)
         layout_md = ch.sign_layout(layout, owner, dsse=ctx.rng.random() < 0.3)
         rows = [row for r in recs for row in r["sig_rows"]]
@@ -158,8 +162,9 @@ def run(ctx):
         out, vreq = ch.verify_chain(ctx, layout_md, owner, project, linkdir, rows, params=params, base_path_setting=bps)
         vreqs.append(("verify", vreq)); expect.append(["accept", out]); meta.append((chain, family, None))
         # tampered re-runs of the same chain under the same (honest) layout
-        for _ in range(2 if not ctx.thorough() else 3):
-            tam = gen_tamper(ctx.rng, chain, recs)
+        for k in range(2 if not ctx.thorough() else 3):
+            # in every run some chains lose EVERYTHING that is covered at one boundary, under a layout with REQUIRE rules
+            tam = gen_tamper(ctx.rng, chain, recs, force="delete_all" if (i % 7 == 2 and k == 0) else None)
             if tam[0] == "tree":
                 trecs, tproject, tlinkdir = ch.record_chain(ctx, chain, tamper=(tam[1], tam[2]))
                 if not all(r["file_exists"] and not r["exc"] for r in trecs):
